@@ -92,6 +92,8 @@ pub struct Mon {
     pub enable_c13: bool,
     pub enable_c12: bool,
     pub enable_c05: bool,
+    /// C06 credit monitor (MAX_DATA / MAX_STREAM_DATA vs. application consumption)
+    pub enable_credit: bool,
     /// honest-peer world: any transport error between the peers is itself a finding
     pub honest: bool,
     pub rebinds: u32,
@@ -176,6 +178,7 @@ impl Mon {
             enable_c13: true,
             enable_c12: true,
             enable_c05: true,
+            enable_credit: false,
             honest: true,
             rebinds: 0,
             dgram_arrivals: BTreeMap::new(),
@@ -904,6 +907,48 @@ impl Mon {
                         }
                     }
                 }
+            }
+        }
+
+        // ---------------- C06 credit ----------------
+        if self.enable_credit && self.lane == Lane::Null {
+            let receiver_is_client = conn.side == Side::Client;
+            let mut msgs = vec![];
+            for d in decoded.iter().flatten() {
+                for p in d {
+                    for fr in &p.frames {
+                        match fr {
+                            Frame::MaxData(v) => {
+                                self.cnt.inc("c06.credit_checks");
+                                let mut consumed = 0u64;
+                                let mut parts = vec![];
+                                for ((pair, wc, sid), f) in _led.flows.iter() {
+                                    if *pair == conn.pair && *wc != receiver_is_client {
+                                        let c = if f.recv_stop.is_some() || f.reset.is_some() || f.recv_reset.is_some() { f.written.max(f.delivered.total()) } else { f.delivered.total() };
+                                        consumed += c;
+                                        parts.push((*sid, c, f.written));
+                                    }
+                                }
+                                let bound = consumed.saturating_add(conn.tcfg.rwnd);
+                                if *v > bound {
+                                    msgs.push(format!("conn {ei}/{ch}: MAX_DATA({v}) sent while the application had consumed or discarded at most {consumed} bytes and the receive window is {}; per stream (id, consumed, written): {parts:?}", conn.tcfg.rwnd));
+                                }
+                            }
+                            Frame::MaxStreamData { id, max } => {
+                                self.cnt.inc("c06.credit_checks");
+                                let consumed = _led.flows.get(&(conn.pair, !receiver_is_client, *id)).map_or(0, |f| f.delivered.total());
+                                let bound = consumed.saturating_add(conn.tcfg.stream_rwnd);
+                                if *max > bound {
+                                    msgs.push(format!("conn {ei}/{ch}: MAX_STREAM_DATA(id={id},{max}) sent while the application had read {consumed} bytes of it and the stream window is {}", conn.tcfg.stream_rwnd));
+                                }
+                            }
+                            _ => {}
+                        }
+                    }
+                }
+            }
+            for m in msgs {
+                self.violate("C06", m);
             }
         }
 
